@@ -191,11 +191,18 @@ func feedBack(g *Group, a Asg, gen int) {
 	}
 }
 
+// runChainFrom: a chain that starts from given user data (kind "other") with the next generation `gen`
+func runChainFrom(rnd *hlib.Rand, g *Group, gen, steps int) int {
+	return runChainK(rnd, &chain{g: g, gen: gen, nextID: 100}, "other", steps)
+}
+
 // runChain: fresh plan, then `steps` rebalances.  Returns the number of Plan calls.
 func runChain(rnd *hlib.Rand, g *Group, steps int, identical bool) int {
-	c := &chain{g: g, gen: 1, nextID: 100, identical: identical}
+	return runChainK(rnd, &chain{g: g, gen: 1, nextID: 100, identical: identical}, "fresh", steps)
+}
+
+func runChainK(rnd *hlib.Rand, c *chain, kind string, steps int) int {
 	calls := 0
-	kind := "fresh"
 	for s := 0; s <= steps; s++ {
 		a, v := doPlan("sticky", kind, c.g)
 		calls++
@@ -449,6 +456,100 @@ func clusterJoin(rnd *hlib.Rand) int {
 	doPlan("sticky", "join", next)
 	run.Count("sticky-step-join-superset")
 	return calls + 1
+}
+
+// rejoinChain: identical subscriptions; plan, then one member goes away (keeping the user data of its last sync, as
+// consumerGroup.userData does) while another joins, then the absent member comes back with its stale user data
+// (kind "rejoin"): the claims of the newest generation must win, partitions may only move to the member that came back.
+func rejoinChain(rnd *hlib.Rand) int {
+	g := &Group{}
+	T, M := rnd.Range(1, 2), rnd.Range(3, 5)
+	var tn []string
+	for t := 0; t < T; t++ {
+		tn = append(tn, "t"+strconv.Itoa(t))
+		g.Topics = append(g.Topics, Topic{Name: tn[t], Parts: seqParts(rnd.Range(3, 9))})
+	}
+	for i := 0; i < M; i++ {
+		g.Members = append(g.Members, Member{Name: "m" + strconv.Itoa(i), Topics: append([]string(nil), tn...), UD: UserData{Kind: "-"}})
+	}
+	gen := rnd.Range(1, 4)
+	a, v := doPlan("sticky", "fresh", g)
+	if a == nil || v["valid"] != "1" {
+		return 1
+	}
+	// generation gen: everybody has the plan; one member goes away, a new one joins
+	g2 := g.clone()
+	feedBack(g2, a, gen)
+	k := rnd.Intn(M)
+	away := g2.Members[k]
+	g2.Members = append(g2.Members[:k:k], g2.Members[k+1:]...)
+	if rnd.Chance(3, 4) {
+		g2.Members = append(g2.Members, Member{Name: "j" + strconv.Itoa(M), Topics: append([]string(nil), tn...), UD: UserData{Kind: "-"}})
+	}
+	b, w := doPlan("sticky", "other", g2)
+	if b == nil || w["valid"] != "1" {
+		return 2
+	}
+	// generation gen+1 (possibly a few more rounds without change), then the absent member is back
+	g3 := g2.clone()
+	feedBack(g3, b, gen+1)
+	g3.Members = append(g3.Members, away)
+	if rnd.Bool() { // map order / position of the rejoiner in the member list
+		n := len(g3.Members)
+		g3.Members[0], g3.Members[n-1] = g3.Members[n-1], g3.Members[0]
+	}
+	doPlan("sticky", "rejoin", g3)
+	run.Count("sticky-step-rejoin")
+	return 3
+}
+
+// multiGen: prior state from several generations with conflicting claims (so the previous-owner branch fires), mixed
+// subscriptions and an unbalanced kept assignment (one member of the newest generation claims most partitions): the
+// shape in which getTheActualPartitionToBeMoved substitutes partitions, sometimes one held by a third member.
+// Followed by a re-plan and a join, so that the stickiness predicates see the resulting plans too.
+func multiGen(rnd *hlib.Rand) int {
+	g := &Group{}
+	T, M := rnd.Range(2, 3), rnd.Range(3, 5)
+	var all []TP
+	for t := 0; t < T; t++ {
+		name := "t" + strconv.Itoa(t)
+		g.Topics = append(g.Topics, Topic{Name: name, Parts: seqParts(rnd.Range(4, 7))})
+		for _, p := range g.Topics[t].Parts {
+			all = append(all, TP{name, p})
+		}
+	}
+	top := rnd.Range(2, 4)
+	hog := rnd.Intn(M)
+	for i := 0; i < M; i++ {
+		m := Member{Name: "m" + strconv.Itoa(i)}
+		for _, t := range g.Topics {
+			if i == hog || rnd.Chance(3, 4) {
+				m.Topics = append(m.Topics, t.Name)
+			}
+		}
+		if len(m.Topics) == 0 {
+			m.Topics = []string{g.Topics[0].Name}
+		}
+		gen, num, den := rnd.Range(1, top), 1, 3
+		if i == hog {
+			gen, num, den = top, 2, 3
+		}
+		m.UD = UserData{Kind: "g" + strconv.Itoa(gen)}
+		for _, p := range all {
+			if rnd.Chance(num, den) { // stale claims on topics the member no longer lists are part of the shape
+				m.UD.Parts = append(m.UD.Parts, p)
+			}
+		}
+		g.Members = append(g.Members, m)
+	}
+	run.Count("sticky-multigen")
+	return runChainFrom(rnd, g, top+1, 2)
+}
+
+// the 4-member / 2-topic input of seeded change c08-5 (substituted partition held by a third member)
+func multiGenWitness() *Group {
+	return parseGroup("m0:t0:g2:t0/1,t0/2,t1/1,t1/3;m1:t0,t1:g3:t0/0,t0/1,t0/2,t0/3,t1/0,t1/2,t1/3,t1/5;m2:t0,t1:g2:t0/4,t1/0;m3:t0,t1:g1:t0/2,t0/4,t1/3,t1/4,t1/5",
+		"t0:0,1,2,3,4;t1:0,1,2,3,4,5")
 }
 
 // the lead's pairwise-swap scenario (m4 joins with all topics; m1, m3 on t0 only; m0, m2 on t1, t2)
